@@ -9,8 +9,9 @@ and goes on.  So the two agree as soon as every such `l'` is a FIXED POINT of `e
 
 `LeftStable lk₁ lk₂ isReg a` says exactly this (a decidable condition on the statement and the two tables: run
 `evaluate` on the completed values), `leftStable_resumes` is the retry theorem under it, and `plain_leftStable` shows
-that it generalises the syntactic class `plain` of Lemmas/SimpRetry.lean.  `Simp.resumes_false` is the witness that the
-condition cannot be dropped at tree level: there `l' = -(r1 - r0)` is not a fixed point.
+that it generalises the syntactic class `plain` of Lemmas/SimpRetry.lean.  Since `evaluate` is idempotent (Lemmas/SimpNF.lean) the condition holds
+for every tree (Lemmas/SimpStableAll.lean); before the repairs of K4/K5 it did not (`-(l - r)` was a completed value and not a
+fixed point).
 -/
 namespace Trion.Simp
 open Trion
